@@ -23,9 +23,10 @@ raise; the clause "executable statements lie inside a method" below the top leve
 `add_main_func` does not establish (negative theorem below, PHP/Java findings).
 -/
 import LianVerif.Proofs.LangRun
+import LianVerif.Proofs.Consumers
 
 namespace LianVerif.C03
-open LianVerif.Gir LianVerif.MainFunc LianVerif.LangRun
+open LianVerif.Gir LianVerif.MainFunc LianVerif.LangRun LianVerif.Consumers
 
 /-! ## 1. The certified checker -/
 
@@ -190,6 +191,30 @@ are at least `MIN_ID_INTERVAL` apart -/
 theorem C03_adjust_node_id (i n : Nat) : n + i ≤ adjustNodeId i n ∧ adjustNodeId i n % 10 = 0 :=
   ⟨adjust_ge i n, adjust_mod i n⟩
 
+/-! ## 4b. The consumers -/
+
+/-- **C03 (consumers).** On every table satisfying the core clauses (in particular on everything the
+checker accepts, `C03_consumers_total_of_check`) the model of the `GIRBlockViewer` constructor
+returns without raising, and the model of `DataModel.read_block` finds exactly two rows for the id of
+every block. -/
+theorem C03_consumers_total (bk : String → Bool) (rows : Rows) (h : WFCore bk rows) :
+    viewer rows = .ok () ∧ ∀ s ∈ rows, s.isStart = true → readBlock rows s.id = true :=
+  ⟨viewer_ok (shape_of_lvl (h.nested (fun _ _ => false) false)) h.ids_unique,
+   readBlock_ok (shape_of_lvl (h.nested (fun _ _ => false) false)) h.ids_unique⟩
+
+theorem lvl_forget {M : Row → Nat → Bool} {Q : Nat → Bool → Row → Prop} {p : Nat} {inM : Bool}
+    {last : Option Row} {rows : Rows} (h : Lvl M Q p inM last rows) : Shape p last rows := by
+  induction h with
+  | nil => exact Shape.nil
+  | stmt hm hp _ _ ih => exact Shape.stmt hm hp ih
+  | block hs he hid hsp hep ha _ _ ih1 ih2 => exact Shape.block hs he hid hsp hep ha ih1 ih2
+
+/-- whatever the certified checker accepts is safe for the consumers -/
+theorem C03_consumers_total_of_check (P : WfParams) (rows : Rows) (h : wfUnitCheck P rows = true) :
+    viewer rows = .ok () ∧ ∀ s ∈ rows, s.isStart = true → readBlock rows s.id = true := by
+  have hw := (wfUnitCheck_iff P rows).1 h
+  exact ⟨viewer_ok (lvl_forget hw.nested) hw.ids_unique, readBlock_ok (lvl_forget hw.nested) hw.ids_unique⟩
+
 /-! ## 5. Non-vacuity -/
 
 /-- a small program: `x = 1` (declaration + assignment), `if x: pass`, `def f(): …` -/
@@ -211,6 +236,12 @@ example : ∃ rows, flatten {} 120 demoTree = .ok (127, rows) ∧ rows.length = 
     defIds rows = [120, 121, 122, 123, 124, 125, 126] ∧ wfUnitCheck W0 rows = false ∧
     wfUnitCheck W0 (addMainFunc {} rows) = true := by
   refine ⟨_, rfl, ?_, ?_, ?_, ?_⟩ <;> decide
+
+/-- the consumer models accept that table and reject a table with a missing `block_end` -/
+example : ∃ rows, flatten {} 120 demoTree = .ok (127, rows) ∧ viewer (addMainFunc {} rows) = .ok () ∧
+    viewer ((addMainFunc {} rows).dropLast) = .error .unclosed ∧
+    readBlock (addMainFunc {} rows) 128 = true ∧ readBlock ((addMainFunc {} rows).dropLast) 128 = false := by
+  refine ⟨_, rfl, rfl, rfl, ?_, ?_⟩ <;> decide
 
 /-- the checker accepts and rejects: dropping the last `block_end` of the table above is rejected -/
 example : ∃ rows, flatten {} 120 demoTree = .ok (127, rows) ∧
